@@ -422,6 +422,10 @@ func zzRunC14(r *sim.Run) {
 	r.Preempts += eng.Preempt
 	r.Count("sched-steps", eng.Steps)
 	for s, n := range eng.Sites {
+		if strings.HasPrefix(s, "blocked on") {
+			r.Probe("client-blocked-on-a-lock")
+			continue
+		}
 		if strings.Contains(s, ".go:") {
 			r.Count("site:"+s[strings.LastIndex(s, "/")+1:], n)
 		}
@@ -464,6 +468,21 @@ func zzRunC14(r *sim.Run) {
 		r.Event("[%d..%d] client %d: %s", op.Call, op.Return, op.ClientId, zzCModel.DescribeOperation(op.Input, op.Output))
 	}
 	r.Ops += len(ops)
+	for i := range ops {
+		for j := range ops {
+			a, b := ops[i], ops[j]
+			if a.ClientId != b.ClientId && a.Call < b.Call && b.Call < a.Return {
+				ka, kb := a.Input.(zzCIn).Kind, b.Input.(zzCIn).Kind
+				r.Probe("operations-overlap")
+				if (ka == cGen || ka == cNext) && (kb == cGen || kb == cNext) {
+					r.Probe("two-issuances-overlap")
+				}
+				if (ka == cSign) != (kb == cSign) && (ka == cLock || kb == cLock || ka == cUnlock || kb == cUnlock) {
+					r.Probe("sign-overlaps-lock-or-unlock")
+				}
+			}
+		}
+	}
 	res, info := porcupine.CheckOperationsVerbose(zzCModel, ops, 10*time.Second)
 	switch res {
 	case porcupine.Illegal:
